@@ -192,7 +192,7 @@ def render_layout(layout, y, m, d, culture):
     return layout.format(**fields)
 
 
-def draw_c06(dec, culture=None):
+def draw_c06(dec, culture=None, near=None):
     table = data('layouts.json')['layouts']
     cultures = sorted(table)
     if culture is None:
@@ -201,6 +201,14 @@ def draw_c06(dec, culture=None):
     rows = [r for r in table[culture] if r['supported']]
     row = rows[dec.choice('layout', len(rows))]
     y, m, d = draw_abs_date(dec)
+    if near is not None and dec.chance('anniversary', 0.15):
+        # the stated date is the simulated day itself (or a neighbour) in the same or another year: where a
+        # reference-relative past/future split would leak into an absolute date
+        import datetime as _dt
+        nd = near + _dt.timedelta(days=dec.choice('ann-delta', 3) - 1)
+        yy = [near.year, 1900 + dec.choice('ann-year', 200)][dec.choice('ann-same-year', 3) > 0]
+        if not (nd.month == 2 and nd.day == 29 and not calendar.isleap(yy)) and 1900 <= yy <= 2099:
+            y, m, d = yy, nd.month, nd.day
     lit = render_layout(row['layout'], y, m, d, culture)
     carriers = data('layouts.json')['carriers'].get(culture, ['{}'])
     text, span = embed(dec, lit, carriers)
@@ -350,3 +358,38 @@ def draw_nonexistent(dec, culture='en-us'):
     text, span = embed(dec, lit, CARRIERS_EN_DATE)
     return {'prop': 'C11', 'family': 'nonexistent', 'params': {'y': y, 'm': m, 'd': d, 'layout': lay}, 'culture': culture,
             'text': text, 'lit': span, 'deciding': True}
+
+
+# ------------------------------------------------------------------------------- context twins (history, never judged)
+
+TIME_WORDS = ['half past eleven', 'a quarter to nine', 'noon', '11:30', '2pm', 'half past two', 'midnight', '7']
+
+
+def context_twin(dec, req):
+    """A different request that embeds the SAME literal as `req` in another grammatical context (a range endpoint, a
+    modifier, a composition). Issued just before `req` at the same simulated instant; its own result is not judged by
+    the value oracle — it only creates call history that a memo keyed too narrowly would leak through."""
+    lit = req['text'][req['lit'][0]:req['lit'][1] + 1]
+    fam = req['family']
+    if req['prop'] == 'C07' or req.get('via') == 'C07':
+        core = lit
+        if fam == 'date_at_time':
+            p = req['params']['time']
+            core = lit.rsplit(' at ', 1)[-1]
+        other = TIME_WORDS[dec.choice('tw', len(TIME_WORDS))]
+        forms = ['%s to %s' % (other, core), 'from %s to %s' % (core, other), 'between %s and %s' % (other, core),
+                 '%s tomorrow' % core, 'every day at %s' % core, 'before %s' % core]
+    elif fam in ('abs_date', 'month_day', 'special_day', 'ago_later', 'rel_weekday', 'weekday'):
+        forms = ['%s at 3:15' % lit, 'before %s' % lit, 'since %s' % lit, '%s in the evening' % lit,
+                 'the week of %s' % lit, 'by %s' % lit]
+        if req['prop'] != 'C11':
+            # ranges with an arbitrary second endpoint may be inverted by construction: fine as history, but not
+            # something the C11 shape monitor should be fed as if it were a sensible input
+            forms += ['from %s to next friday' % lit, 'between yesterday and %s' % lit]
+    else:
+        forms = ['before %s' % lit, 'after %s' % lit, 'the first monday of %s' % lit, 'end of %s' % lit]
+        if req['prop'] != 'C11':
+            forms.append('from %s to next month' % lit)
+    text = forms[dec.choice('ctx-form', len(forms))]
+    return {'prop': req['prop'], 'family': 'context', 'params': {'of': fam}, 'culture': req['culture'], 'text': text,
+            'lit': [0, len(text) - 1], 'deciding': False, 'context': True}
